@@ -56,6 +56,10 @@ CLAIMED = {
    text="Poly.tla defines grad, laplacian, div, jac, rot, partial, normal_derivative, convective, sym_grad and matrix_div by term rewriting on polynomials over named input groups (incl. variable-group order, column offsets, mixed terms); TLC enumerates the programs, the real operators are applied to torch programs built from the same terms, and TLC compares every recorded row exactly, requires batch = single-row results, and zeros (not errors) for programs constant or linear in a listed variable.",
    note="Trusted: TLC, the program builder of the driver. Universe: polynomial programs of degree <= 3 over x(2), t(1), k(1), y(3) with integer rows (exact in float32/float64); transcendental programs are outside.",
    technique="term-rewriting calculus in TLA+, exhaustive case enumeration by TLC, TLC trace validation", ref="5 C03"),
+ "C08": dict(
+   text="Models.tla states what 'row-wise function of named variables' means on observations (named input row -> output row): equal named content => equal output across variable orders, row orders, batch compositions and batch-axis arrangements; missing variables rejected; derived input/output spaces; Sequential = composition and Parallel = join of the observed parts. TLC model-checks closure of these laws under composition, enumerates 36 model ASTs with all variable permutations, and validates the observations recorded from real (randomly initialised) models.",
+   note="Trusted: TLC; fixed point 2^-12 with tolerance 8 units. Bounded: leaves FCN/Harmonic/Polynomial/QRES/DeepRitz/Normalization with <= 3 input variables, depth <= 3, batches of <= 6 rows from a pool of 6, one or two batch axes.",
+   technique="TLA+ observation laws (model-checked for closure) + exhaustive presentation enumeration by TLC + TLC trace validation", ref="5 C08"),
 }
 PENDING_REASON = "check not built yet in this round (design in DESIGN.md section 5); not claimed"
 
